@@ -327,6 +327,13 @@ where
     C: GenericConfig<D, F = F>,
     S: Stark<F, D>,
 {
+    // The openings of the CTL polynomials at 1 are present iff the STARK takes part in cross-table
+    // lookups, as in `StarkOpeningSet::new`.
+    ensure!(
+        ctl_zs_first.is_some() == stark.requires_ctls(),
+        "Unexpected presence or absence of ctl_zs_first"
+    );
+
     if stark.uses_lookups() || stark.requires_ctls() {
         let num_auxiliary = stark.num_lookup_helper_columns(config) + num_ctl_helpers + num_ctl_zs;
         let cap_height = config.fri_config.cap_height;
